@@ -5,6 +5,7 @@ import NutsModel.C11.ValidAt
 import NutsModel.C11.CredStatus
 import NutsModel.C11.Reprocess
 import NutsModel.C11.Resolve
+import NutsModel.C11.Present
 import NutsModel.Facts.C11
 open Lean Nuts.Drv Nuts.C11 Nuts
 
@@ -441,6 +442,23 @@ def step (w : World) (j : Json) : World × List String :=
     let c : Cred := { id := some id, issuer := prefixOf id, statuses := none }
     let (v, w') := verifyFull env true w c false
     (w', ["averify " ++ verdictStr v])
+  | "vvp" =>
+    -- a presentation signed by `presenter` (proof created at virtual minute -50) with NutsOrganizationCredentials issued, and
+    -- signed where they carry a proof, at minute -60; signature verdicts = signer is the named key and the proof time fits
+    let holder := if jStr j "holder" == "" then none else some (jStr j "holder")
+    let atMin := jInt j "at"
+    let creds : List VPCred := (jArr j "creds").map fun c =>
+      let pr := jStr c "proof"
+      { doc := { cred := { id := some (jStr c "id"), issuer := jStr c "issuer", statuses := none }, nutsType := true, trusted := false
+                 period := fun t => decide (-60 ≤ t) }
+        subject := jStr c "subject", hasProof := pr != "", sigOk := pr == "good" && decide (-60 ≤ atMin) }
+    let (v, w') := doVerifyVP env true w (jStr j "presenter") holder (jStr j "vpsig" != "bad" && decide (-50 ≤ atMin))
+      (!jBool j "noverifyvcs") true (if atMin == 0 then none else some atMin) 0 creds
+    let line := match v with
+      | .ok => s!"ok n={creds.length}"
+      | .revoked => "revoked"
+      | .err e => "err:" ++ e
+    (w', ["vvp " ++ line])
   | "vhost" =>
     let url := jStr j "url"
     let kind := jStr j "hostkind"
